@@ -481,6 +481,8 @@ impl LogReader {
                         // A fragment without the start of its record is dropped
                         if in_fragmented_record {
                             data_buffer.extend(record.data);
+                        } else if self.report_damaged_records {
+                            return Err(LogReader::fragment_without_start_error());
                         }
                     }
                     BlockType::Last => {
@@ -488,6 +490,8 @@ impl LogReader {
                         if in_fragmented_record {
                             data_buffer.extend(record.data);
                             return Ok((data_buffer, false));
+                        } else if self.report_damaged_records {
+                            return Err(LogReader::fragment_without_start_error());
                         }
                     }
                 }
@@ -616,6 +620,18 @@ impl LogReader {
     /// Get the length of the underlying log file.
     fn len(&self) -> LogIOResult<u64> {
         Ok(self.log_file.len()?)
+    }
+
+    /**
+    The error for a middle or last fragment that does not continue a record.
+
+    A writer never produces such a fragment, not even when it dies between two fragments, so it
+    means that the start of the record was damaged.
+    */
+    fn fragment_without_start_error() -> LogIOError {
+        LogIOError::Seralization(LogSerializationErrorKind::Other(
+            "Found a fragment of a record without the start of the record.".to_string(),
+        ))
     }
 
     /// Log bytes dropped with the provided reason.
